@@ -1629,3 +1629,98 @@ def _box_into_vec(ex, c, a, dt):
 def _from_elem(ex, c, a, dt):
     n = concrete_int(ex, a[1])
     return VecV([Cell(clone_val(a[0])) for _ in range(n)])
+
+# ------------------------------------------------------------------ line-structured symbolic strings (C13 harness)
+class LineStr:
+    """a &str given by its line structure: [(byte length of the line body, terminator)], terminator in '\\n', '\\r\\n', ''.
+    Lengths may be symbolic; bodies contain no '\\n' and no '\\r'."""
+    def __init__(self, lines):
+        self.lines = lines
+class LineSlice:
+    def __init__(self, length, ends_nl):
+        self.length, self.ends_nl = length, ends_nl
+
+def _linestr(v):
+    d = deref(v)
+    return d if isinstance(d, (LineStr, LineSlice)) else None
+
+_orig_lines = NATIVES[('str', 'lines')]
+@native(('str', 'lines'))
+def _lines2(ex, c, a, dt):
+    ls = _linestr(a[0])
+    if ls is None:
+        return _orig_lines(ex, c, a, dt)
+    return ListIt([Ref(Cell(LineSlice(n, False))) for n, t in ls.lines])      # lines() strips "\n" and "\r\n"
+@native(('str', 'split_inclusive'))
+def _split_inclusive(ex, c, a, dt):
+    ls = _linestr(a[0])
+    p = deref(a[1])
+    if isinstance(p, int): p = chr(p)
+    if ls is None:
+        s = as_str(a[0])
+        out, cur = [], ''
+        i = 0
+        while i < len(s):
+            if s.startswith(p, i):
+                cur += p; out.append(cur); cur = ''; i += len(p)
+            else:
+                cur += s[i]; i += 1
+        if cur: out.append(cur)
+        return ListIt([strref(x) for x in out])
+    if p != '\n':
+        raise Unsupported('split_inclusive on line-structured string with pattern %r' % p)
+    return ListIt([Ref(Cell(LineSlice(binop('Add', n, len(t), 'usize'), t != ''))) for n, t in ls.lines])
+_orig_split = NATIVES[('str', 'split')]
+@native(('str', 'split'))
+def _split2(ex, c, a, dt):
+    ls = _linestr(a[0])
+    if ls is None:
+        return _orig_split(ex, c, a, dt)
+    p = deref(a[1])
+    if isinstance(p, int): p = chr(p)
+    if p != '\n':
+        raise Unsupported('split on line-structured string with pattern %r' % p)
+    out = [Ref(Cell(LineSlice(binop('Add', n, len(t) - 1, 'usize') if t else n, False))) for n, t in ls.lines]
+    if ls.lines and ls.lines[-1][1] != '':
+        out.append(Ref(Cell(LineSlice(0, False))))
+    return ListIt(out)
+_orig_len = NATIVES[('str', 'len')]
+@native(('str', 'len'), ('String', 'len'))
+def _str_len2(ex, c, a, dt):
+    ls = _linestr(a[0])
+    if ls is None:
+        return _orig_len(ex, c, a, dt)
+    if isinstance(ls, LineSlice):
+        return ls.length
+    tot = 0
+    for n, t in ls.lines:
+        tot = binop('Add', tot, binop('Add', n, len(t), 'usize'), 'usize')
+    return tot
+_orig_sw = NATIVES[('str', 'ends_with')]
+@native(('str', 'ends_with'))
+def _ends_with2(ex, c, a, dt):
+    ls = _linestr(a[0])
+    if ls is None:
+        return _orig_sw(ex, c, a, dt)
+    p = deref(a[1])
+    if isinstance(p, int): p = chr(p)
+    if isinstance(ls, LineSlice) and p == '\n':
+        return ls.ends_nl
+    raise Unsupported('ends_with on line-structured string')
+@tnative(('Iterator', 'scan'))
+def _scan(ex, c, a, dt):
+    return ScanIt(to_iter(ex, a[0]), a[1], a[2])
+class ScanIt(It):
+    def __init__(self, inner, state, f):
+        self.inner, self.state, self.f, self.done = inner, Cell(state), f, False
+    def next(self, ex):
+        if self.done: return STOP
+        v = self.inner.next(ex)
+        if v is STOP: return STOP
+        r = ex.call_value(self.f, [Cell(Ref(self.state)), Cell(v)])
+        if r.vi == 0:
+            self.done = True
+            return STOP
+        return r.f[0].v
+@native(('*', 'once'), ('iter', 'once'))
+def _once(ex, c, a, dt): return ListIt([a[0]])
